@@ -169,6 +169,19 @@ def run(ctx):
         eb = ExprBuilder(bd)
         recv = eb.at(bb).op(t["args"][0])
         harg = eb.op(t["args"][1])
+        # for every h: the call is not skipped for some values of h (only `h != 0`, for which the
+        # shift is the identity anyway, may guard it)
+        condg = []
+        for g in paths.guards(bd, bb, eb):
+            if g[0] in ("true", "false"):
+                pos, c = paths.bool_atoms(g)
+                zero_test = c[0] == "bin" and c[1] in ("Ne", "Eq") and (c[1] == "Ne") == pos and ((canon(c[2]) == canon(harg) and c[3][0] == "c" and c[3][1] == 0) or (canon(c[3]) == canon(harg) and c[2][0] == "c" and c[2][1] == 0))
+                if not zero_test:
+                    condg.append(("" if pos else "not ") + show(c)[:80])
+        if condg:
+            ctx.fail("C15-R4", bd.path, "conditional shift", "the shift is applied only when %s: for the other values of the half tone F0 is not transposed" % " and ".join(condg), cm.loc_of(t["span"]))
+        else:
+            ctx.ok("C15-R4", "the call is unconditional (at most skipped for h == 0, the identity)", cm.loc_of(t["span"]))
         direct = False
         if bd.path == "engine::Engine::generator" and show(harg).endswith("condition.additional_half_tone"):
             # direct form: `let mut s = models.model_stream(1); s.stream.apply_additional_half_tone(h);
